@@ -803,10 +803,15 @@ impl Harness {
             for (k, v) in &s.known_hits {
                 *known_total.entry(k.clone()).or_insert(0) += v;
             }
+            // the input behind each worst error - for the 40 largest errors only (a sub-check with thousands of error names,
+            // one per table entry, would otherwise make the evidence file several MB)
             let mut worst = serde_json::Map::new();
-            for (k, v) in &s.worst {
-                worst.insert(k.clone(), v.clone());
+            let mut ranked: Vec<(&String, f64)> = s.worst.keys().map(|k| (k, s.max_error.get(k).copied().unwrap_or(0.0))).collect();
+            ranked.sort_by(|a, b| b.1.partial_cmp(&a.1).unwrap_or(std::cmp::Ordering::Equal).then(a.0.cmp(b.0)));
+            for (k, _) in ranked.iter().take(40) {
+                worst.insert((*k).clone(), s.worst[*k].clone());
             }
+            let worst_omitted = ranked.len().saturating_sub(40);
             subs.insert(
                 s.name.clone(),
                 json!({
@@ -816,6 +821,7 @@ impl Harness {
                     "classes": s.classes,
                     "max_error": s.max_error.iter().map(|(k,v)| (k.clone(), if v.is_finite() { json!(v) } else { json!(format!("{}", v)) })).collect::<serde_json::Map<_,_>>(),
                     "worst_case": worst,
+                    "worst_case_omitted": worst_omitted,
                     "known_finding_hits": s.known_hits,
                     "failing_evaluations": s.failing_evaluations,
                     "wall_s": s.wall_s,
